@@ -48,10 +48,12 @@ FMT = ("e", 16)
 
 
 @st.composite
-def _case(draw, n_min=1, n_max=4):
+def _case(draw, n_min=1, n_max=4, near_copies=False):
     route = draw(st.sampled_from(["writeSetFL", "class", "potable:setfl", "potable:lammps_eam_alloy", "main:setfl"]))
-    m = draw(gen.eam_model("eam", n_min, n_max, depth=1, pycallables=not route.startswith(("potable", "main"))))
+    m = draw(gen.eam_model("eam", n_min, n_max, depth=1, pycallables=not route.startswith(("potable", "main")), near_copies=near_copies))
     m["route"] = route
+    if near_copies:
+        m["near_copies"] = True
     m["share_callables"] = draw(st.booleans())
     m["int_zero"] = draw(st.integers(0, 2)) == 0      # Python callables returning the int 0 where they vanish
     if m["share_callables"] and not route.startswith(("potable", "main")) and m["embed"] and m["density"] and draw(st.booleans()):
@@ -82,7 +84,8 @@ def strategy(tier):
 
 
 def strata(tier):
-    return [("1-2 elements", _case(1, 2), 4), ("3-4 elements", _case(3, 4), 6), ("rewrite", _rewrite(), 2), ("break_on_row", _node_case(), 1)]
+    return [("1-2 elements", _case(1, 2), 4), ("3-4 elements", _case(3, 4), 6), ("rewrite", _rewrite(), 2), ("break_on_row", _node_case(), 1),
+            ("near_copies", _case(2, 3, True), 2)]
 
 
 def budget(tier):
@@ -92,7 +95,7 @@ def budget(tier):
 
 
 def classes(m):
-    cls = ["break_on_row"] if m.get("node_breaks") else []
+    cls = (["break_on_row"] if m.get("node_breaks") else []) + (["near_copies"] if m.get("near_copies") else [])
     els = eamtab.element_set(m)
     if len(els) >= 3:
         cls.append("elements>=3")
